@@ -255,6 +255,37 @@ func checkC04(c *an.Ctx) {
 		}
 	}
 	c.Check(okRange, "C04.4", an.Short(s.launchFn)+":range", s.launch.Pos(), "the per-stage loop ranges over Nodes() of the scheduled graph", "the per-stage loop does not range over all nodes of the scheduled graph")
+	// every pass of the scheduling loop makes the pass over the stages: no way round the loop skips it
+	// (a pass that is made only "when something changed" misses eligibility created without that event)
+	if s.outer != nil && s.innerAnchor != nil {
+		seen := map[*ssa.BasicBlock]bool{s.innerAnchor: true}
+		var skip func(b *ssa.BasicBlock) bool // can the header be reached again from b without the stage pass?
+		skip = func(b *ssa.BasicBlock) bool {
+			if seen[b] || !s.outer.Blocks[b] {
+				return false
+			}
+			seen[b] = true
+			for _, sx := range b.Succs {
+				if sx == s.outer.Header {
+					return true
+				}
+				if skip(sx) {
+					return true
+				}
+			}
+			return false
+		}
+		skips := false
+		for _, sx := range s.outer.Header.Succs {
+			if s.outer.Blocks[sx] && sx != s.innerAnchor && skip(sx) {
+				skips = true
+			}
+		}
+		if s.outer.Header == s.innerAnchor {
+			skips = false
+		}
+		c.Check(!skips, "C04.4", an.Short(s.outerFn)+":pass-every-iteration", s.outer.Header.Instrs[0].Pos(), "every iteration of the scheduling loop makes the pass over the stages", "an iteration of the scheduling loop can go round without making the pass over the stages: a stage that became eligible without the event the loop waits for (a dependency skipped by its condition, for instance) is not started")
+	}
 	okExits := true
 	for _, x := range exitEdges(s.inner) {
 		if x[0] != s.inner.Header {
